@@ -23,7 +23,7 @@ def make_case(seed, idx, tier):
     rng = gen.case_rng("C14", seed, idx)
     if idx % 9 == 8:
         d = gen.gen_minimize_case(rng, {"dim": (2, 3)})
-        d["seed"] = rng.randint(0, 10**6)
+        d["seed"] = rng.choice([0, rng.randint(0, 10**6), rng.randint(0, 10**6)])
         if d.get("maxfun"):
             d["maxfun"] = min(d["maxfun"], 600)
         d["kind"] = "minimize"
@@ -42,7 +42,7 @@ def make_case(seed, idx, tier):
         "entry": None,
     }
     d = gen.gen_tree_case(rng, prof)
-    d["options"]["random_seed"] = rng.randint(0, 10**6)
+    d["options"]["random_seed"] = rng.randint(0, 10**6) if idx % 6 else 0  # 0 is a legal seed
     d["c14"] = True
     d["subprocess_hashseeds"] = ["1", "random"] if tier == "quick" else ["0", "1", "12345", "random"]
     if tier == "quick" and idx % 2:
